@@ -5,7 +5,7 @@
    no loader, no wake-up channel, no lock.  A recorded call takes effect at some instant between its invocation
    and its response (silent Lin step); the history is accepted iff such instants exist for all calls (TLC searches
    them; acceptance = the high-water mark of consumed lines reaches the end, register 1).
-   Lines: reset (C, B, kind), inv/res (thr, op, v, r), quiesce (v = Count()).                                   *)
+   Lines: reset (C, B, kind), inv/res (thr, op, v, r), quiesce (v = Count()), stuck (v = Count() while Take() calls are still blocked).                                   *)
 EXTENDS Json, TLC, Sequences, Integers, FiniteSets, IOUtils
 Trace == ndJsonDeserialize(IOEnv.VERIF_TRACE)
 VARIABLES l, ch, pool, C, B, pend
@@ -27,6 +27,8 @@ Consume ==
         /\ pend' = [pend EXCEPT ![e.thr] = Idle]
         /\ UNCHANGED <<ch, pool, C, B>>
      \/ /\ e.ev = "quiesce" /\ ch = <<>> /\ pool = <<>> /\ e.v = 0                          \* nothing stranded, Count() = 0
+        /\ UNCHANGED <<ch, pool, C, B, pend>>
+     \/ /\ e.ev = "stuck" /\ e.v = 0                                                    \* consumers still blocked in Take() after the producer stopped: only if nothing is left
         /\ UNCHANGED <<ch, pool, C, B, pend>>
      \/ /\ e.ev = "count" /\ e.v <= C + B /\ e.v >= 0                                     \* never more than C + B items
         /\ UNCHANGED <<ch, pool, C, B, pend>>
